@@ -133,8 +133,13 @@ class TrioBackend(AsyncNetworkBackend):
                 stream: trio.abc.Stream = await trio.open_tcp_stream(
                     host=host, port=port, local_address=local_address
                 )
-                for option in socket_options:
-                    stream.setsockopt(*option)  # type: ignore[attr-defined] # pragma: no cover
+                try:
+                    for option in socket_options:
+                        stream.setsockopt(*option)  # type: ignore[attr-defined] # pragma: no cover
+                except BaseException:  # pragma: no cover
+                    # The connection has been made: don't leave it behind.
+                    await trio.aclose_forcefully(stream)
+                    raise
         return TrioStream(stream)
 
     async def connect_unix_socket(
@@ -154,8 +159,13 @@ class TrioBackend(AsyncNetworkBackend):
         with map_exceptions(exc_map):
             with trio.fail_after(timeout_or_inf):
                 stream: trio.abc.Stream = await trio.open_unix_socket(path)
-                for option in socket_options:
-                    stream.setsockopt(*option)  # type: ignore[attr-defined] # pragma: no cover
+                try:
+                    for option in socket_options:
+                        stream.setsockopt(*option)  # type: ignore[attr-defined] # pragma: no cover
+                except BaseException:  # pragma: no cover
+                    # The connection has been made: don't leave it behind.
+                    await trio.aclose_forcefully(stream)
+                    raise
         return TrioStream(stream)
 
     async def sleep(self, seconds: float) -> None:
